@@ -54,7 +54,7 @@ pub fn segments_intersection2d(
     } else {
         let loc1 = if s == 0.0 {
             SegmentPointLocation::OnVertex(0)
-        } else if s == denom {
+        } else if s == 1.0 {
             SegmentPointLocation::OnVertex(1)
         } else {
             SegmentPointLocation::OnEdge([1.0 - s, s])
@@ -62,7 +62,7 @@ pub fn segments_intersection2d(
 
         let loc2 = if t == 0.0 {
             SegmentPointLocation::OnVertex(0)
-        } else if t == denom {
+        } else if t == 1.0 {
             SegmentPointLocation::OnVertex(1)
         } else {
             SegmentPointLocation::OnEdge([1.0 - t, t])
